@@ -2,7 +2,7 @@
    value (a NumberExpr tree) is replaced by a copy with fresh tokens, once re-attached to the root's
    store (well-formed result) and once left in a foreign store (result is not WF). *)
 From AB Require Import Desc Generated GeneratedWf Tree TreeDefs TreeProofs TreeWF TreeWFProofs TreeRun TreeFacts.
-From AB Require Import TreeEdit TreeEditProofs.
+From AB Require Import TreeEdit TreeEditProofs TreeEditProofs2.
 From Coq Require Import ZArith String List Bool.
 Import ListNotations.
 Local Open Scope string_scope.
@@ -50,3 +50,14 @@ Proof.
   - vm_compute in E. inversion E. vm_compute. auto 10.
   - vm_compute in E. inversion E. vm_compute. discriminate.
 Qed.
+
+(* the same replacement from the Open entry: the path steps into item 0 of the repeated `_meta` *)
+Definition ex_deep_path : path := [SItem "_meta" 0%nat; SField "_value"].
+Lemma ex_edit_hyps_deep :
+  hwf_b all_classes ex_open_num = true /\ select ex_open_num ex_deep_path = Some ex_old
+  /\ fresh_b ex_new_attached ex_open_num = true /\ root_sid ex_new_attached = root_sid ex_open_num
+  /\ match plug ex_open_num ex_deep_path ex_new_attached with
+     | Some r => hwf_b all_classes r = true /\ conforms all_classes r = true
+                 /\ text_of (node_toks r) = text_of (node_toks ex_open_num)
+     | None => False end.
+Proof. vm_compute. auto 10. Qed.
